@@ -15,6 +15,10 @@ fn un(a: Card) -> UnaryExpression {
     UnaryExpression::new(a)
 }
 
+fn nan() -> Card {
+    c(CardBody::Div(bin(c(CardBody::ScalarFloat(0.0)), c(CardBody::ScalarFloat(0.0)))))
+}
+
 /// a value of a random kind (never needs locals)
 fn any_value(rng: &mut Rng) -> Card {
     match rng.below(14) {
@@ -22,7 +26,13 @@ fn any_value(rng: &mut Rng) -> Card {
         1 => Card::scalar_int(rng.range(-3, 3)),
         2 => Card::scalar_int(i64::MAX),
         3 => Card::scalar_int(i64::MIN),
-        4 => c(CardBody::ScalarFloat(*rng.pick(&[0.0, -0.0, 1.5, f64::NAN, f64::INFINITY, -1e300, 9.3e18]))),
+        4 => match rng.below(7) {
+            // NaN and infinity are computed, not written as literals: JSON has no spelling for
+            // them and a replay file must hold exactly the program that ran
+            0 => nan(),
+            1 => c(CardBody::Div(bin(c(CardBody::ScalarFloat(1.0)), c(CardBody::ScalarFloat(0.0))))),
+            _ => c(CardBody::ScalarFloat(*rng.pick(&[0.0, -0.0, 1.5, -1e300, 9.3e18]))),
+        },
         5 => Card::string_card(""),
         6 => Card::string_card("x".repeat(rng.usize(300))),
         7 => c(CardBody::CreateTable),
@@ -116,7 +126,30 @@ fn hostile_stmt(rng: &mut Rng, i: usize) -> Card {
     let a = any_value(rng);
     let b = any_value(rng);
     let d = any_value(rng);
-    match rng.below(12) {
+    match rng.below(13) {
+        // fill a table with an arithmetic progression of integer keys (clusters that wrap around the
+        // end of the bucket array at one capacity or another), then take everything out again
+        12 => {
+            let n = 6 + rng.range(0, 40);
+            let start = rng.range(0, 600);
+            let step = 1 + rng.range(0, 16);
+            let key = c(CardBody::Add(bin(Card::scalar_int(start), c(CardBody::Mul(bin(Card::read_var(format!("wi{i}")), Card::scalar_int(step)))))));
+            Card::composite_card(
+                "fill-and-drain",
+                vec![
+                    c(CardBody::Repeat(Box::new(Repeat {
+                        i: Some(format!("wi{i}")),
+                        n: Card::scalar_int(n),
+                        body: Card::set_property(Card::read_var(format!("wi{i}")), Card::read_var("wrapt"), key),
+                    }))),
+                    c(CardBody::Repeat(Box::new(Repeat {
+                        i: None,
+                        n: Card::scalar_int(n + 1),
+                        body: Card::set_global_var("drained", c(CardBody::PopTable(un(Card::read_var("wrapt"))))),
+                    }))),
+                ],
+            )
+        }
         0 => Card::set_property(a, b, d),
         1 => c(CardBody::AppendTable(bin(a, b))),
         2 => c(CardBody::ForEach(Box::new(ForEach {
@@ -150,6 +183,7 @@ pub fn gen_hostile(rng: &mut Rng) -> Module {
     // a table with enough entries that growing it reallocates its storage, and a counter the
     // mutating callbacks use
     main.cards.push(Card::set_var("budget", Card::scalar_int(0)));
+    main.cards.push(Card::set_var("wrapt", c(CardBody::CreateTable)));
     main.cards.push(Card::set_var("big", c(CardBody::CreateTable)));
     for j in 0..5 {
         main.cards.push(c(CardBody::AppendTable(bin(Card::scalar_int(10 - j), Card::read_var("big")))));
@@ -166,7 +200,7 @@ pub fn gen_hostile(rng: &mut Rng) -> Module {
         main.cards.push(Card::set_property(Card::string_card("held by a lost key"), Card::read_var("tbl"), Card::read_var("lostk")));
         main.cards.push(c(CardBody::AppendTable(bin(Card::scalar_int(5), Card::read_var("lostk")))));
         if rng.chance(1, 2) {
-            main.cards.push(Card::set_property(Card::scalar_int(2), Card::read_var("tbl"), c(CardBody::ScalarFloat(f64::NAN))));
+            main.cards.push(Card::set_property(Card::scalar_int(2), Card::read_var("tbl"), nan()));
         }
     }
     let n = 1 + rng.usize(3);
